@@ -36,6 +36,17 @@ func c09Specs() []*bfsSpec {
 		{Name: "c09-webseed-4MiB-pieces", Cfg: worldCfg{Geom: "gbig", Peers: []peerCfg{{Fast: true, Ext: true, DontHave: 7}}, Webseed: true, AutoDrain: true},
 			Alphabet: []string{"want:0:1", "want:2:0", "unwant:0:1", "tick", "wsmode:404", "wsmode:body-short", "wsmode:honoured", "wsmode:body-fails-mid", "adv:2", "adv:31", "adv:400", "setconf:0", "setconf:1"},
 			Depth: 4, DepthT: 5},
+		// a one-slot event queue with requests outstanding across a piece boundary: when they
+		// are all dropped at once (choke by a non-Fast peer, disconnect) the peer's
+		// drop events queue up inside the peer
+		{Name: "c09-smallqueue-drops", Cfg: worldCfg{Geom: "g2x2", Peers: []peerCfg{{Ext: true, DontHave: 7}}, EventCap: 1},
+			Setup:    []string{"drain", "bf:0:3", "drain", "unchoke:0", "drain", "want:0:1", "want:1:0", "cmd:0:0", "cmd:0:1", "cmd:0:2", "cmd:0:3", "drain"},
+			Alphabet: []string{"choke:0", "close:0", "ev", "drain", "have:0:1", "ans:0:old:full", "unchoke:0", "adv:31"},
+			Depth: 4, DepthT: 6},
+		{Name: "c09-smallqueue-drops-fast", Cfg: worldCfg{Geom: "g2x2", Peers: []peerCfg{{Fast: true, Ext: true, DontHave: 7}}, EventCap: 2},
+			Setup:    []string{"drain", "haveall:0", "drain", "unchoke:0", "drain", "want:0:1", "want:1:0", "cmd:0:0", "cmd:0:1", "cmd:0:2", "cmd:0:3", "drain"},
+			Alphabet: []string{"chokesilent:0", "close:0", "ev", "drain", "have:0:1", "rej:0:old", "rej:0:new", "adv:31", "adv:2"},
+			Depth: 4, DepthT: 6},
 		// a magnet link: advertisements made before the metadata is known are applied when it
 		// completes, while the torrent's loop lags behind the peers (manual event delivery)
 		{Name: "c09-magnet-lagging-loop", Cfg: worldCfg{Geom: "g2x2", Magnet: true, Peers: []peerCfg{{Fast: true, Ext: true, DontHave: 7, Metadata: 8}, {Fast: true, Ext: true, DontHave: 7, Metadata: 8, MetadataSize: 1}}},
